@@ -26,13 +26,10 @@ def _hx(a):
     return [float(v).hex() for v in np.asarray(a, dtype=float).reshape(-1)]
 
 
-def build(p):
-    """-> (problem, processor).  Raises whatever the implementation raises."""
-    from pyxel.calibration import FitRange2D, FitRange3D
-    from pyxel.calibration.fitness import sum_of_abs_residuals
-    from pyxel.calibration.fitting_datatree import ModelFittingDataTree
+def make_objects(p):
+    """-> (variables, processor): the ParameterValues objects and the processor of the caller.
+    Raises whatever the implementation raises."""
     from pyxel.detectors import CCD, CCDGeometry, Characteristics, Environment
-    from pyxel.exposure import Readout
     from pyxel.observation import ParameterValues
     from pyxel.pipelines import DetectionPipeline, ModelFunction, Processor
 
@@ -62,10 +59,25 @@ def build(p):
             key=f"pipeline.{GROUPS[v['model']]}.cap{v['model']}.arguments.{v['arg']}",
             values=values, logarithmic=bool(v["log"]), boundaries=bnd))
 
+    return variables, processor
+
+
+def target_file():
     target = Path("target_c10.npy")
     if not target.exists():
         np.save(target, np.zeros((2, 2)))
-    problem = ModelFittingDataTree(
+    return target
+
+
+def make_problem(p, variables, processor):
+    """One problem construction from the GIVEN objects (as Calibration.run_calibration does every time)."""
+    from pyxel.calibration import FitRange2D, FitRange3D
+    from pyxel.calibration.fitness import sum_of_abs_residuals
+    from pyxel.calibration.fitting_datatree import ModelFittingDataTree
+    from pyxel.exposure import Readout
+
+    target = target_file()
+    return ModelFittingDataTree(
         processor=processor, variables=variables, readout=Readout(), simulation_output="pixel",
         generations=p.get("generations", 1), population_size=p.get("pop", 5),
         fitness_func=sum_of_abs_residuals, file_path=None,
@@ -73,7 +85,12 @@ def build(p):
         out_fit_range=FitRange3D(time=slice(None, None), row=slice(0, 2), col=slice(0, 2)),
         target_filenames=[target],
     )
-    return problem, processor
+
+
+def build(p):
+    """-> (problem, processor) from fresh objects."""
+    variables, processor = make_objects(p)
+    return make_problem(p, variables, processor), processor
 
 
 def ordered(p, rec):
@@ -200,6 +217,7 @@ def calib(p, problem, processor):
         algo_kw.update(nlopt_solver="neldermead", maxeval=20)
     algorithm = Algorithm(**algo_kw)
     ModelFittingDataTree.fitness = wrapped
+    pr.GLOBAL = []
     try:
         pg.set_global_rng_seed(seed=seed)
         islands = int(p.get("islands", 1))
@@ -211,8 +229,49 @@ def calib(p, problem, processor):
         dt = archi.run_evolve(readout=problem.readout, num_rows=2, num_cols=2,
                               num_evolutions=int(p.get("evolutions", 2)),
                               num_best_decisions=p.get("num_best", 3))
+        load_err = load_simulated(dt)
     finally:
         ModelFittingDataTree.fitness = orig
+        final, pr.GLOBAL = pr.GLOBAL, None
+
+    return collect(p, problem, log, dt, final, load_err)
+
+
+def load_simulated(dt):
+    """The simulated outputs of the result are lazy: loading one runs the pipeline once per island with the last
+    champions' parameters (that run is what C10 observes).  In the unchanged tree the load itself then fails
+    (`_apply_parameters` asks for with_inherited_coords=True, `extract_data_3d` reads data_tree["pixel"]): that
+    is not a statement of C10, so that error is ignored; the probe models have run by then.  Returned: the
+    error text, so that a load that fails BEFORE any pipeline ran (update_processor raising) can be told apart."""
+    try:
+        _ = dt["/simulated/pixel"].to_numpy()
+    except Exception as ex:  # noqa: BLE001
+        return f"{type(ex).__name__}: {str(ex)[:160]}"
+    return None
+
+
+def final_runs(final):
+    """Pipeline runs outside fitness: per thread the records come as (model 0, model 1) of one run."""
+    by_thread = {}
+    for tid, rec in final or []:
+        by_thread.setdefault(tid, []).append(rec)
+    runs = []
+    for recs in by_thread.values():
+        cur = {}
+        for rec in recs:
+            if any(k in cur for k in rec):
+                runs.append(cur)
+                cur = {}
+            cur.update(rec)
+        if cur:
+            runs.append(cur)
+    # a run that was still going on in another thread when the load gave up is incomplete: not judged
+    return [r for r in runs if all(f"m{m}.fixed" in r for m in range(len(GROUPS)))]
+
+
+def collect(p, problem, log, dt, final=None, load_err=None):
+    """Probes of one calibration run: every logged evaluation, every champion and best individual, and the
+    final application of the last champions' parameters (whose simulated outputs the result reports)."""
 
     def conv_of(x):
         try:
@@ -246,13 +305,245 @@ def calib(p, problem, processor):
     reported("champion", "champion")
     if "best" in dt.children:
         reported("best", "best")
+
+    if final is not None:
+        # /simulated/* of the result come from run_evolve applying the LAST champions' reported parameters: one
+        # pipeline run per island (one processor).  Every such run that was observed must have received exactly
+        # the parameters reported for some island.  (Loading stops at the first error, see load_simulated: an
+        # island whose run was not observed is not judged.)
+        runs = [ordered(p, r) for r in final_runs(final)]
+        dec = dt["/champion/decision"].isel(evolution=-1).to_numpy().astype(float)
+        par = dt["/champion/parameters"].isel(evolution=-1).to_numpy().astype(float)
+        dec, par = dec.reshape(-1, dec.shape[-1]), par.reshape(-1, par.shape[-1])
+        nvar = len(p["vars"])
+        wants = []
+        for qv in par:
+            want, a = [], 0
+            for v in p["vars"]:
+                b = 1 if v["n"] is None else v["n"]
+                want.append(_hx(qv[a:a + b]))
+                a += b
+            wants.append(want)
+        if not runs and load_err and load_err.startswith(("IndexError", "TypeError")):
+            # no pipeline ran at all and the load died in the assignment walk (parameter[a] / parameter[a:b]):
+            # the reported parameters of every island were NOT applied
+            for k in range(len(dec)):
+                probes.append(dict(tag="final", x=_hx(dec[k]), x_after=_hx(dec[k]), conv=_hx(par[k]), applied=[],
+                                   error=f"final application failed before the pipeline ran: {load_err}"))
+        for r in runs:
+            got = [e[2] for e in r[:nvar]]
+            k = next((k for k, w in enumerate(wants) if w == got), 0)     # no island reports it: judged against island 0
+            probes.append(dict(tag="final", x=_hx(dec[k]), x_after=_hx(dec[k]), conv=_hx(par[k]), applied=r, error=None))
     return probes
+
+
+def enc_bnd(b):
+    if b is None:
+        return None
+    b = np.asarray(b)
+    if b.shape == (2,):
+        return ["shared", float(b[0]).hex(), float(b[1]).hex()]
+    if b.ndim == 2 and b.shape[1] == 2:
+        return ["per", [[float(lo).hex(), float(hi).hex()] for lo, hi in b]]
+    return ["other", repr(b.shape)]
+
+
+def snapshot(p, variables, processor, problems):
+    """What the objects shared by all problem constructions hold NOW: the ParameterValues objects (key,
+    placeholders, flag, boundaries), the caller's processor, and the processor kept by every problem."""
+    vs = []
+    for v, var in zip(p["vars"], variables):
+        expected = f"pipeline.{GROUPS[v['model']]}.cap{v['model']}.arguments.{v['arg']}"
+        vals = var.values
+        if isinstance(vals, str):
+            n = None if vals == "_" else "other"
+        elif isinstance(vals, (list, tuple)) and all(isinstance(e, str) and e == "_" for e in vals):
+            n = len(vals)
+        else:
+            n = "other"
+        vs.append(dict(key=v["key"] if var.key == expected else "?" + str(var.key)[:60], n=n,
+                       log=var.logarithmic if isinstance(var.logarithmic, bool) else "other",
+                       bnd=enc_bnd(var.boundaries)))
+    if len(variables) != len(p["vars"]):
+        vs.append(dict(key="?count", n="other", log="other", bnd=None))
+    own = []
+    for pb in problems:
+        lst = list(pb.param_processor_list)
+        own.append(ordered(p, read_processor(p, lst[0])) if len(lst) == 1 else [["?nproc", "other", []]])
+    return dict(vars=vs, proc=ordered(p, read_processor(p, processor)), own=own)
+
+
+def hist(p):
+    """A history on the SAME objects: the variables list, its ParameterValues objects and the processor are
+    created once; every op uses them again.  ops: ["build"] | ["bounds", pid] | ["convert"|"fitness"|"update", pid, x]"""
+    import verif_probes_c10 as pr
+
+    try:
+        variables, processor = make_objects(p)
+    except Exception as ex:  # noqa: BLE001
+        return {"refused_objects": type(ex).__name__, "msg": str(ex)[:200]}
+    problems, steps = [], []
+    for op in p["ops"]:
+        kind = op[0]
+        st = dict(op=kind)
+        if kind == "build":
+            try:
+                pb = make_problem(p, variables, processor)
+                problems.append(pb)
+                lb, ub = pb.get_bounds()
+                st.update(lb=_hx(lb), ub=_hx(ub))
+            except Exception as ex:  # noqa: BLE001
+                st.update(refused=type(ex).__name__, msg=str(ex)[:200])
+        elif kind == "bounds":
+            pb = problems[op[1]]
+            lb, ub = pb.get_bounds()
+            st.update(pid=op[1], lb=_hx(lb), ub=_hx(ub))
+        else:
+            pid = op[1]
+            pb = problems[pid]
+            x = np.array([_f(h) for h in op[2]], dtype=float)
+            arr = x.copy()
+            st.update(pid=pid, tag=kind, x=_hx(x), applied=None, error=None)
+            try:
+                if kind == "convert":
+                    st["conv"] = _hx(pb.convert_to_parameters(arr))
+                elif kind == "fitness":
+                    pr.TLS.sink = []
+                    try:
+                        pb.fitness(arr)
+                        st["applied"] = ordered(p, merged(pr.TLS.sink))
+                    finally:
+                        pr.TLS.sink = None
+                    st["conv"] = _hx(pb.convert_to_parameters(x.copy()))
+                elif kind == "update":
+                    conv = pb.convert_to_parameters(arr)
+                    st["conv"] = _hx(conv)
+                    newp = pb.update_processor(parameter=np.array(conv), processor=processor)
+                    st["applied"] = ordered(p, read_processor(p, newp))
+                else:
+                    raise ValueError(f"unknown op {kind}")
+            except Exception as ex:  # noqa: BLE001
+                st["error"] = f"{type(ex).__name__}: {str(ex)[:160]}"
+                st.setdefault("conv", None)
+                if kind != "convert":
+                    st["applied"] = []
+            st["x_after"] = _hx(arr)
+        st["snap"] = snapshot(p, variables, processor, problems)
+        steps.append(st)
+    return {"steps": steps}
+
+
+def calib2(p):
+    """Calibration.run_calibration called several times on the SAME Calibration object (same ParameterValues
+    objects, same processor): every run builds its own problem from them.  Every evaluation is logged."""
+    import threading
+
+    import verif_probes_c10 as pr
+    from pyxel.calibration import Algorithm, Calibration
+    from pyxel.calibration.fitness import sum_of_abs_residuals
+    from pyxel.calibration.fitting_datatree import ModelFittingDataTree
+
+    try:
+        variables, processor = make_objects(p)
+    except Exception as ex:  # noqa: BLE001
+        return {"refused_objects": type(ex).__name__, "msg": str(ex)[:200]}
+    runs = p["runs"]          # [{algo, seed, islands, generations, pop, evolutions, num_best}, ...]
+
+    def algorithm(r):
+        kw = dict(type=r.get("algo", "sade"), generations=r.get("generations", 2), population_size=r.get("pop", 8))
+        if kw["type"] == "nlopt":
+            kw.update(nlopt_solver="neldermead", maxeval=20)
+        return Algorithm(**kw)
+
+    r0 = runs[0]
+    calibration = Calibration(
+        target_data_path=[target_file()], fitness_function=sum_of_abs_residuals, algorithm=algorithm(r0),
+        parameters=variables, result_type="pixel", result_fit_range=(0, 2, 0, 2), target_fit_range=(0, 2, 0, 2),
+        pygmo_seed=int(r0.get("seed", 1)), num_islands=int(r0.get("islands", 1)),
+        num_evolutions=int(r0.get("evolutions", 2)), num_best_decisions=r0.get("num_best", 3),
+        topology="ring" if int(r0.get("islands", 1)) > 1 else "unconnected")
+
+    log, lock, built = [], threading.Lock(), []
+    orig_fit, orig_init = ModelFittingDataTree.fitness, ModelFittingDataTree.__init__
+
+    def init(self, *a, **k):
+        orig_init(self, *a, **k)
+        built.append(self)
+
+    def wrapped(self, decision_vector_1d):
+        x0 = np.array(decision_vector_1d, dtype=float).copy()
+        prev = getattr(pr.TLS, "sink", None)
+        pr.TLS.sink = []
+        f, rec, err = None, None, None
+        try:
+            f = orig_fit(self, decision_vector_1d)
+            rec = merged(pr.TLS.sink)
+        except Exception as ex:  # noqa: BLE001
+            err = f"{type(ex).__name__}: {str(ex)[:160]}"
+            raise
+        finally:
+            with lock:
+                log.append(dict(x=x0, x_after=np.array(decision_vector_1d, dtype=float).copy(),
+                                rec=rec if err is None else None, f=None if f is None else float(f[0]), err=err))
+            pr.TLS.sink = prev
+        return f
+
+    steps, problems = [], []
+    ModelFittingDataTree.fitness, ModelFittingDataTree.__init__ = wrapped, init
+    try:
+        for k, r in enumerate(runs):
+            if k > 0:
+                calibration.algorithm = algorithm(r)
+                calibration.pygmo_seed = int(r.get("seed", 1))
+            del log[:]
+            n_before = len(built)
+            st = dict(op="build")
+            dt, err, load_err = None, None, None
+            pr.GLOBAL = []
+            try:
+                dt = calibration.run_calibration(processor=processor, output_dir=None, with_inherited_coords=False,
+                                                 with_progress_bar=False)
+                load_err = load_simulated(dt)
+            except Exception as ex:  # noqa: BLE001
+                err = f"{type(ex).__name__}: {str(ex)[:200]}"
+            finally:
+                final, pr.GLOBAL = pr.GLOBAL, None
+            new = built[n_before:]
+            if len(new) != 1:
+                if err is not None:
+                    st.update(refused=err.split(":")[0], msg=err)
+                    st["snap"] = snapshot(p, variables, processor, problems)
+                    steps.append(st)
+                    continue
+                return {"calib_error": f"run {k}: {len(new)} problems constructed, {err}"}
+            pb = new[0]
+            problems.append(pb)
+            lb, ub = pb.get_bounds()
+            st.update(lb=_hx(lb), ub=_hx(ub))
+            snap = snapshot(p, variables, processor, problems)
+            st["snap"] = snap
+            steps.append(st)
+            if err is not None:
+                return {"calib_error": f"run {k}: {err}", "steps": steps}
+            for pbe in collect(p, pb, list(log), dt, final, load_err):
+                steps.append(dict(op="fitness", pid=len(problems) - 1, snap=snap, **pbe))
+    finally:
+        ModelFittingDataTree.fitness, ModelFittingDataTree.__init__ = orig_fit, orig_init
+    return {"steps": steps}
 
 
 def handle(p):
     import verif_probes_c10 as pr
 
     pr.TLS.sink = None
+    if p.get("mode") == "hist":
+        return hist(p)
+    if p.get("mode") == "calib2":
+        try:
+            return calib2(p)
+        except Exception as ex:  # noqa: BLE001
+            import traceback
+            return {"calib_error": f"{type(ex).__name__}: {str(ex)[:300]}", "tb": traceback.format_exc()[-1500:]}
     try:
         problem, processor = build(p)
     except Exception as ex:  # noqa: BLE001
